@@ -32,22 +32,23 @@ type TimeStep struct {
 
 // ProcSpec is everything that decides one simulated process.
 type ProcSpec struct {
-	Argv     []string
-	Fn       func() (int, error) // direct entry (par/rot engines) instead of Argv
-	Tape     []int
-	MapTape  []int
-	MapOrder bool
-	Plan     verifsim.FaultPlan
-	Base     time.Time
-	ZoneMin  int
-	ZoneName string
-	Root     string
-	Stdin    string
-	Cpus     int
-	Env      map[string]string
-	Steps    []TimeStep                                      // for pause / --follow: time plan, then SIGINT
-	LongRun  bool                                            // process is expected to run until SIGINT
-	OnEdit   func(e *EditFault, readsSoFar, writesSoFar int) // applies a mid-run edit (controller context: everybody else is blocked)
+	Argv             []string
+	Fn               func() (int, error) // direct entry (par/rot engines) instead of Argv
+	Tape             []int
+	MapTape          []int
+	MapOrder         bool
+	Plan             verifsim.FaultPlan
+	Base             time.Time
+	ZoneMin          int
+	ZoneName         string
+	Root             string
+	Stdin            string
+	Cpus             int
+	Env              map[string]string
+	Steps            []TimeStep                                      // for pause / --follow: time plan, then SIGINT
+	LongRun          bool                                            // process is expected to run until SIGINT
+	BeforeFirstWrite func()                                          // runs once inside the process, right before its first writing file-system call
+	OnEdit           func(e *EditFault, readsSoFar, writesSoFar int) // applies a mid-run edit (controller context: everybody else is blocked)
 }
 
 // Decision is one scheduler decision: who was parked, who was picked.
@@ -208,6 +209,7 @@ func runProc(spec *ProcSpec) (res ProcResult) {
 		s.MapTape = &verifsim.Tape{Vals: spec.MapTape}
 		s.MapOrder = spec.MapOrder
 		s.Plan = spec.Plan
+		s.BeforeFirstWrite = spec.BeforeFirstWrite
 		s.Root = spec.Root
 		verifsim.Activate(s)
 
